@@ -152,7 +152,7 @@ def run(ctx):
     # every interpolated / irrational planner path x knob.  Down-sampling: a sum of 8 stop-band tones stratified over the WHOLE band from
     # the configured stop-band start to the input Nyquist limit (first percent above the start, the stretch below the lower Nyquist limit
     # when stopband_begin < 1, first alias zone, equal strata of the rest); up-sampling: image lines of two in-band tones
-    sel_t, st_t = S.cover(rng, ["base", "ph*", "sb<1", "sb>1", "pb", "prec"], S.COVER_IRRATIONAL + S.RATIOS_ARB, per_ratio=2 if quick else 6,
+    sel_t, st_t = S.cover(rng, ["base", "ph*", "sb<1", "sb>1", "sb>1.1", "pb", "prec"], S.COVER_IRRATIONAL + S.RATIOS_ARB, per_ratio=2 if quick else 6,
                           members=1, max_period=1 << 30, rtflags=(None, None, 2, 3))
     ctx.cov["covering_pool_tones"] = st_t
     jobs = []
@@ -239,7 +239,7 @@ def run(ctx):
     ctx.cov["rule"] = ("rows: fixed core of 6 rational configurations plus the " + COVER_RULE % (
                        "coprime ratios a:b up to 12, halving chains, large up-sampling and audio rates x 14 recipes (LQ..32-bit, LSR presets, steep) x engine "
                        "(SIMD / portable, SOXR_DOUBLE_PRECISION) x knob in {recipe as is, phase_response 0 / 25 / 75 / 100 by field or recipe flag, "
-                       "stopband_begin < 1, stopband_begin > 1, passband_end, roll-off class, fractional precision 15..33}") +
+                       "stopband_begin < 1, stopband_begin in (1, 1.09) and in (1.09, 1.14), passband_end, roll-off class, fractional precision 15..33}") +
                        "The stop-band grid of every member runs from the CONFIGURED stop-band start to the input Nyquist limit (with stopband_begin < 1 "
                        "this includes the stretch below the lower Nyquist limit where nothing aliases; its level is also listed on its own); up-sampling "
                        "members: every image line of every in-band grid tone. End to end: the same covering over irrational / interpolated ratios: "
